@@ -131,6 +131,9 @@ func (p *Prog) methodTargets(g *CallGraph, m *types.Func, recvType types.Type) [
 			if _, isI := tn.Type().Underlying().(*types.Interface); isI {
 				continue
 			}
+			if !p.usedAsInterface()[tn] {
+				continue // never stored behind an interface inside the analysed code
+			}
 			for _, t := range []types.Type{tn.Type(), types.NewPointer(tn.Type())} {
 				if !types.Implements(t, iface) {
 					continue
@@ -592,4 +595,145 @@ func (p *Prog) reachingDef(f *Func, use *ast.Ident, o types.Object) (VarDef, boo
 		i = len(b.Nodes) - 1
 	}
 	return VarDef{}, false
+}
+
+// usedAsInterface: named types of the analysed packages whose values are
+// converted to an interface type somewhere in the analysed code (rapid type
+// analysis refinement of class-hierarchy dispatch): a type that is only ever
+// handled concretely (e.g. *Conn, handed to users) is not a dispatch target.
+func (p *Prog) usedAsInterface() map[*types.TypeName]bool {
+	if p.ifaceUsed != nil {
+		return p.ifaceUsed
+	}
+	used := map[*types.TypeName]bool{}
+	p.ifaceUsed = used
+	mark := func(dst types.Type, src ast.Expr) {
+		if dst == nil || src == nil {
+			return
+		}
+		if _, ok := dst.Underlying().(*types.Interface); !ok {
+			return
+		}
+		st := p.TypeOf(src)
+		if st == nil {
+			return
+		}
+		if _, isI := st.Underlying().(*types.Interface); isI {
+			return
+		}
+		if n := namedOf(st); n != nil {
+			used[n.Obj()] = true
+		}
+	}
+	for _, pk := range p.Pkgs {
+		for _, file := range pk.Syntax {
+			var sigStack []*types.Signature
+			ast.Inspect(file, func(n ast.Node) bool {
+				switch x := n.(type) {
+				case *ast.FuncDecl:
+					if o, ok := p.Info.Defs[x.Name].(*types.Func); ok {
+						sigStack = append(sigStack, o.Type().(*types.Signature))
+					}
+				case *ast.AssignStmt:
+					if len(x.Lhs) == len(x.Rhs) {
+						for i := range x.Lhs {
+							mark(p.TypeOf(x.Lhs[i]), x.Rhs[i])
+						}
+					}
+				case *ast.ValueSpec:
+					if x.Type != nil {
+						for _, v := range x.Values {
+							mark(p.TypeOf(x.Type), v)
+						}
+					}
+				case *ast.CallExpr:
+					if tv, ok := p.Info.Types[x.Fun]; ok && tv.IsType() {
+						if len(x.Args) == 1 {
+							mark(tv.Type, x.Args[0])
+						}
+						return true
+					}
+					if sig, ok := p.TypeOf(x.Fun).(*types.Signature); ok && sig != nil {
+						np := sig.Params().Len()
+						for i, a := range x.Args {
+							var pt types.Type
+							switch {
+							case sig.Variadic() && i >= np-1:
+								if sl, ok := sig.Params().At(np - 1).Type().(*types.Slice); ok {
+									pt = sl.Elem()
+								}
+							case i < np:
+								pt = sig.Params().At(i).Type()
+							}
+							mark(pt, a)
+						}
+						// method value / receiver conversions are not interface conversions
+					}
+				case *ast.CompositeLit:
+					t := p.TypeOf(x)
+					if t == nil {
+						return true
+					}
+					switch u := t.Underlying().(type) {
+					case *types.Struct:
+						for i, el := range x.Elts {
+							if kv, ok := el.(*ast.KeyValueExpr); ok {
+								if id, ok := kv.Key.(*ast.Ident); ok {
+									for j := 0; j < u.NumFields(); j++ {
+										if u.Field(j).Name() == id.Name {
+											mark(u.Field(j).Type(), kv.Value)
+										}
+									}
+								}
+							} else if i < u.NumFields() {
+								mark(u.Field(i).Type(), el)
+							}
+						}
+					case *types.Slice:
+						for _, el := range x.Elts {
+							mark(u.Elem(), el)
+						}
+					case *types.Array:
+						for _, el := range x.Elts {
+							mark(u.Elem(), el)
+						}
+					case *types.Map:
+						for _, el := range x.Elts {
+							if kv, ok := el.(*ast.KeyValueExpr); ok {
+								mark(u.Elem(), kv.Value)
+								mark(u.Key(), kv.Key)
+							}
+						}
+					}
+				case *ast.SendStmt:
+					if ch, ok := p.TypeOf(x.Chan).Underlying().(*types.Chan); ok {
+						mark(ch.Elem(), x.Value)
+					}
+				}
+				return true
+			})
+			_ = sigStack
+		}
+	}
+	// return statements: result types of the enclosing function
+	for _, f := range p.AllFuncs {
+		var sig *types.Signature
+		if f.Obj != nil {
+			sig, _ = f.Obj.Type().(*types.Signature)
+		} else if f.Lit != nil {
+			sig, _ = p.TypeOf(f.Lit).(*types.Signature)
+		}
+		if sig == nil {
+			continue
+		}
+		walkBody(f, func(n ast.Node) bool {
+			if rs, ok := n.(*ast.ReturnStmt); ok && len(rs.Results) == sig.Results().Len() {
+				for i, e := range rs.Results {
+					mark(sig.Results().At(i).Type(), e)
+				}
+			}
+			return true
+		})
+	}
+	return used
 }
